@@ -20,7 +20,7 @@ import (
 	"bytes"
 	"encoding/binary"
 	"errors"
-	"strings"
+	"unicode/utf16"
 )
 
 // Add or replace a named stream with the given contents. Only streams within
@@ -50,10 +50,20 @@ func (r *ComDoc) AddFile(name string, contents []byte) error {
 
 // Delete a file from the root storage if it exists
 func (r *ComDoc) DeleteFile(name string) error {
+	// match the name the way the directory tree orders its keys (MS-CFB
+	// 2.6.4: length, then upper-cased UTF-16 code units), so that siblings
+	// stay unique under that comparison
+	runes := append(utf16.Encode([]rune(name)), 0)
+	if len(runes) > len(RawDirEnt{}.NameRunes) {
+		// no entry can hold such a name
+		return nil
+	}
+	probe := &DirEnt{RawDirEnt: RawDirEnt{NameLength: uint16(2 * len(runes))}}
+	copy(probe.NameRunes[:], runes)
 	keepFiles := make([]int, 0, len(r.rootFiles))
 	for _, index := range r.rootFiles {
 		item := &r.Files[index]
-		if !strings.EqualFold(item.name, name) {
+		if lessDirEnt(item, probe) || lessDirEnt(probe, item) {
 			keepFiles = append(keepFiles, index)
 			continue
 		}
